@@ -41,7 +41,9 @@ Inductive ev :=
 | Restart.
 
 Definition memb (x : nat) (l : list nat) : bool := existsb (Nat.eqb x) l.
-Definition name_of (s : st) (n : nat) : nat := if memb n (fresh s) then n else 0.
+(* the identity the metadata and index dictionaries must hold for entry n to be found again by name and tags: an entry
+   with a metric name of its own, else the shared metric name with one of three tag values (series) *)
+Definition name_of (s : st) (n : nat) : nat := if memb n (fresh s) then n + 3 else Nat.modulo n 3.
 Definition add_name (x : nat) (l : list nat) : list nat := if memb x l then l else x :: l.
 Definition ack_to (s : st) (v : nat) : nat := if (k s <=? v) && (v <=? c s) then v else k s.
 
